@@ -71,10 +71,38 @@ _CMP = {ast.Eq: "eq", ast.NotEq: "ne", ast.LtE: "le", ast.Lt: "lt", ast.Gt: "gt"
 
 
 class PE:
-    def __init__(self, binding, max_paths=256):
+    def __init__(self, binding, max_paths=256, resolver=None, depth=0):
         self.env = dict(binding)
         self.out = []
         self.max_paths = max_paths
+        self.resolver = resolver      # name -> ast.FunctionDef of a package helper that may be inlined
+        self.depth = depth
+
+    def _inline(self, fdef, args, kws):
+        a = fdef.args
+        pos = a.posonlyargs + a.args
+        binding = {}
+        for p_, v in zip(pos, args):
+            binding[p_.arg] = v
+        for k, v in kws:
+            binding[k] = v
+        sub = PE(binding, self.max_paths, self.resolver, self.depth + 1)
+        for p_, d in zip(pos[len(pos) - len(a.defaults):], a.defaults):
+            if p_.arg not in sub.env:
+                sub.env[p_.arg] = sub.ev(d)
+        for p_ in pos:
+            sub.env.setdefault(p_.arg, ("unbound", p_.arg))
+        try:
+            done = sub.run(fdef.body, [])
+        except AnalysisError:
+            return None
+        if not done or not sub.out or any(r[0] != "ret" for c, r in sub.out) or any(any(isinstance(x, tuple) and x and x[0] == "inloop" for x in c) for c, r in sub.out):
+            return None
+        res = sub.out[-1][1][1]
+        for conds, r in reversed(sub.out[:-1]):
+            cond = conds[0] if len(conds) == 1 else ("and",) + tuple(conds)
+            res = ("ifexp", cond, r[1], res)
+        return res
 
     # ---- expressions -----------------------------------------------------------------------------
     def ev(self, e):
@@ -109,7 +137,18 @@ class PE:
             op = _BIN.get(type(e.op))
             if op is None:
                 return ("opaque", ast.dump(e))
-            return (op, self.ev(e.left), self.ev(e.right))
+            l, r = self.ev(e.left), self.ev(e.right)
+            if l[0] == "const" and isinstance(l[1], str):
+                try:
+                    if op == "add" and r[0] == "const" and isinstance(r[1], str):
+                        return ("const", l[1] + r[1])
+                    if op == "mod" and r[0] == "const":
+                        return ("const", l[1] % r[1])
+                    if op == "mod" and r[0] == "list" and all(x[0] == "const" for x in r[1:]):
+                        return ("const", l[1] % tuple(x[1] for x in r[1:]))
+                except Exception:
+                    pass
+            return (op, l, r)
         if isinstance(e, ast.UnaryOp):
             if isinstance(e.op, ast.Not):
                 return ("not", self.ev(e.operand))
@@ -167,6 +206,14 @@ class PE:
                 return ("set",) + a1[1:]
             if fname == "reversed" and a1 is not None and a1[0] == "list":
                 return ("list",) + tuple(reversed(a1[1:]))
+            if fname == "getattr" and len(args) == 3 and args[2][0] == "const" and isinstance(args[2][1], str):
+                return ("attr", args[1], args[2][1])
+            if fname is not None and self.resolver is not None and self.depth < 3 and not any(isinstance(x, tuple) and x and x[0] == "star" for x in args[1:]):
+                fdef = self.resolver(fname)
+                if fdef is not None:
+                    r_ = self._inline(fdef, list(args[1:]), list(kws[1:]))
+                    if r_ is not None:
+                        return r_
             if fname is None:
                 if isinstance(f, ast.Attribute):
                     return ("mcall", self.ev(f.value), f.attr, args, kws)
@@ -279,10 +326,10 @@ class PE:
 _MISSING = object()
 
 
-def decision_list(fnode, binding, normalizer=None):
+def decision_list(fnode, binding, normalizer=None, resolver=None):
     """Decision list of function ``fnode`` (ast.FunctionDef) under ``binding`` {param: term}."""
     normalizer = normalizer or Normalizer()
-    pe = PE(binding)
+    pe = PE(binding, resolver=resolver)
     a = fnode.args
     pos = a.posonlyargs + a.args
     for p, d in zip(pos[len(pos) - len(a.defaults):], a.defaults):
@@ -319,7 +366,10 @@ def decision_list_inlined(repo, fn, binding, normalizer=None, depth=2):
     (``self.helper(...)``, ``Class.helper(...)`` or a module-level function) is replaced by the helper's own
     decision list with the actual arguments bound (one leaf may become several)."""
     normalizer = normalizer or Normalizer()
-    base = decision_list(fn.node, binding, normalizer)
+    def _res(name, _fn=fn):
+        c = repo.fns.get((_fn.module.name, name))
+        return c.node if c is not None and c is not _fn and c.cls is None else None
+    base = decision_list(fn.node, binding, normalizer, resolver=_res)
     if depth <= 0:
         return base
     out = []
